@@ -1,6 +1,6 @@
 #!/usr/bin/env python3
 """Generate the prompts for independent seeding agents (they get only the property text and a scratch worktree).
-usage: mkseedprompts.py <round-tag> <kind: break|refactor> <outdir> [ids...]"""
+usage: mkseedprompts.py <round-tag> <kind: break|refactor|small> <outdir> [ids...]"""
 import json
 import os
 import subprocess
@@ -107,6 +107,49 @@ Final answer: one paragraph per refactoring (directory, function touched, kind o
 '''
 
 
+SMALL = '''
+## What to produce
+
+FIVE distinct SMALL changes (1-6 changed lines each, each in a different function where possible) to the source under `src/xdoctest/`,
+each of which BREAKS the property above while
+
+ (a) the package still imports and byte-compiles, and
+ (b) the existing test suite, unedited, still passes.  Suite command (about 2-5 minutes):
+     `cd {wt} && PYTHONPATH={wt}/src /venv/bin/python -m pytest -q -p no:cacheprovider --timeout=900`
+     Expected on the unchanged tree AND with your change: 298 passed, 2 failed, where the two failures are
+     tests/test_entry_point.py::test_xdoc_console_script_exec and ::test_xdoc_console_script_location
+     (they fail on the unchanged tree too).  Any other failure disqualifies the change.
+
+These are the slips a maintainer makes in an ordinary commit and a reviewer waves through.  Use DIFFERENT kinds for the five, e.g.:
+an off-by-one or wrong boundary (`<` / `<=`, `[1:]` / `[:-1]`, `+ 1` dropped or added); the wrong one of two similar variables or
+attributes; two arguments swapped or a keyword argument dropped so a default applies; a condition weakened, strengthened or inverted in
+one corner (`and` / `or`, a missing `not`, `is None` vs falsy); a changed default value or constant; a reset / clear / copy that was
+dropped or moved; an early `return` / `continue` / `break` added or removed; the wrong dictionary key or a `.get` default; two
+statements re-ordered that are not independent; an exception class narrowed or widened; a regular expression changed by a character
+or a flag.  Each must be SUBTLE: ordinary use (and the test suite) must not expose it; it needs a particular input, option combination,
+sequence of runs or corner case to manifest.  Look beyond the most obvious function named in the anchors: helpers it calls, callers that
+consume its result, option plumbing and defaults are all fair game as long as the PROPERTY ABOVE is what breaks.
+Do NOT merely reproduce example edits or 'mutants' that the property text itself names.  Do not edit tests; stubs (.pyi) need not be updated.
+
+For each change k = 1..5 create the directory `/tmp/seedout/{tag}-{id}-k/` containing
+
+ * `patch.diff`  -- output of `git diff` against HEAD, must apply with `git apply` from the worktree root;
+ * `demo.py`     -- standalone script, run from the worktree root as
+                    `PYTHONPATH={wt}/src /venv/bin/python /tmp/seedout/{tag}-{id}-k/demo.py`;
+                    exit 0 (and say so) when the property holds -- i.e. on the unchanged tree -- and exit 1 when it observes the
+                    violation -- i.e. with the patch applied.  Deterministic, under a minute, writes only to a temp dir it removes.
+ * `notes.md`    -- what the change does, which clause of the property it breaks, why the tests miss it, what exactly is needed for it
+                    to manifest.
+
+Verify each one yourself before finishing: demo exits 0 on the clean worktree, exits 1 with the patch, and the full suite result with
+the patch is exactly the expected one.  Restore the worktree (`git checkout -- .`) between changes and when you are done.  Keep only one
+full-suite run going at a time (you may check several candidate patches quickly with the demo first and run the suite only on the ones you keep).
+
+Final answer: for each change one short paragraph (directory, file/function touched, kind of slip, what it needs to manifest, the suite and demo
+results you observed).  If you could not find five that pass the suite, deliver fewer rather than weakening requirement (b).
+'''
+
+
 def main():
     tag, kind, outdir = sys.argv[1:4]
     ids = sys.argv[4:]
@@ -121,8 +164,8 @@ def main():
         a = d['anchors']
         anchors = 'files: ' + ', '.join(a['files']) + '\n' + '\n'.join('- %s: %s (%s)' % (s['name'], s.get('meaning', ''), s['where']) for s in a.get('state', [])) + '\n' + \
             '\n'.join('- %s (%s)' % (m['name'], m['where']) for m in a.get('mechanism', [])) + '\nobserve at: ' + '; '.join(a.get('observe_at', []))
-        what = 'seed a property-breaking change into Erotemic/xdoctest (second round)' if kind == 'break' else 'behaviour-preserving refactorings of Erotemic/xdoctest'
-        text = (HEAD + (BREAK if kind == 'break' else REFACTOR)).format(what=what, wt=wt, id=d['id'], title=d['title'], statement=d['statement'], qover=d['quantifier']['over'],
+        what = {'break': 'seed a property-breaking change into Erotemic/xdoctest (second round)', 'small': 'seed small property-breaking slips into Erotemic/xdoctest', 'refactor': 'behaviour-preserving refactorings of Erotemic/xdoctest'}[kind]
+        text = (HEAD + {'break': BREAK, 'refactor': REFACTOR, 'small': SMALL}[kind]).format(what=what, wt=wt, id=d['id'], title=d['title'], statement=d['statement'], qover=d['quantifier']['over'],
                                                                          qtext=d['quantifier']['text'], why=d['why_tests_cant'], anchors=anchors, tag=tag)
         open(os.path.join(outdir, '%s-%s.md' % (tag, d['id'])), 'w').write(text)
         print(tag, d['id'], wt)
